@@ -34,8 +34,8 @@ func CheckRootSchema(rootSchema *ischema.ISchema) {
 		c.checkNode(rootSchema.RootNode(), rootSchema.TypesList())
 	}
 
-	for name, typ := range rootSchema.TypesList() {
-		c.checkType(name, typ, rootSchema.TypesList())
+	for _, name := range rootSchema.TypeNames() {
+		c.checkType(name, rootSchema.TypesList()[name], rootSchema.TypesList())
 	}
 }
 
